@@ -642,7 +642,7 @@ func recoveryFuncs(p *Prog) map[*ssa.Function]bool {
 		return out
 	}
 	for fn := range p.reachableFuncs(root) {
-		if pkgRelOf(p, fn) == "segment" && callsEvent(fn, func(n string) bool { return n == "crc32.Checksum" }) {
+		if pkgRelOf(p, fn) == "segment" && p.reaches(fn, func(ci ssa.CallInstruction) bool { return eventName(ci) == "crc32.Checksum" }) {
 			out[fn] = true
 		}
 	}
